@@ -18,7 +18,7 @@ from . import common as C
 from .shrink import shrink_case
 
 PID = "C08"
-TIMEOUT_S = 5
+TIMEOUT_S = 20
 
 
 # ----------------------------------------------------------------------------- implementation side
